@@ -132,11 +132,48 @@ def runComp (ws : List String) : Option String := do
       "mean=" ++ showMean (mean s A c)])
   | _ => none
 
+/-- `merge <T|-> k:v … | k:v …`: what `estimate` returns for a target (`T`) or none (`-`) and an output databox; values are
+opaque tags -/
+def parseDB (ws : List String) : Option (DB String) :=
+  ws.mapM (fun w => match w.splitOn ":" with
+    | [k, v] => some (k, v)
+    | _ => none)
+
+def showDB (db : DB String) : String := " ".intercalate (db.map (fun p => p.1 ++ ":" ++ p.2))
+
+def runMerge (ws : List String) : Option String := do
+  match ws with
+  | flag :: rest =>
+    let i := rest.idxOf "|"
+    if i ≥ rest.length then none else
+    let t ← parseDB (rest.take i)
+    let o ← parseDB (rest.drop (i + 1))
+    let target := if flag = "T" then some t else none
+    pure (showDB (estimateReturn target o))
+  | _ => none
+
+/-- `comph n p icpt <A> <c if icpt> <flags 0/1 …>`: a history of companion requests (1 = deviation) on one variant, one
+`T=…;K=…` per request, separated by ` | ` -/
+def runCompHist (ws : List String) : Option String := do
+  match ws with
+  | n :: p :: icpt :: rest =>
+    let n ← n.toNat?; let p ← p.toNat?
+    let icpt := icpt = "1"
+    let s : Spec := ⟨n, 0, p, icpt⟩
+    let (A, rest) ← takeQMat n (n * p) rest
+    let (c, rest) ← (if icpt then (takeRats n rest).map (fun (c, r) => (some c, r)) else some (none, rest))
+    let flags ← rest.mapM (fun w => if w = "1" then some true else if w = "0" then some false else none)
+    let (_, outs) := runRequests s A c {} flags
+    pure (" | ".intercalate (outs.map (fun o => "T=" ++ o.1.toText ++ ";K=" ++ showVec o.2)))
+  | _ => none
+
 def step (line : String) : String :=
   match words line with
   | "est" :: ws => (runEst ws).getD "bad-op"
   | "sim" :: ws => (runSim ws).getD "bad-op"
   | "comp" :: ws => (runComp ws).getD "bad-op"
+  | "comph" :: ws => (runCompHist ws).getD "bad-op"
+  | "merge" :: ws => (runMerge ws).getD "bad-op"
   | _ => "bad-op"
 
 end IrisVerif.Driver.C18
